@@ -68,6 +68,12 @@ func runC07(c *core.Ctx) *core.Outcome {
 		cfg.OutputSize = 0
 		o.Probes["deep_run"]++
 	} else if t.Chance(1, 60) {
+		// a paginated node seen before and after a language switch that makes its browse labels much longer
+		a = langPagedApp(t)
+		cfg.OutputSize = uint32(t.Range(48, 90))
+		scripted = [][]byte{[]byte("1"), []byte("11"), []byte("0"), []byte("2"), []byte("0"), []byte("1"), []byte("11"), []byte("11"), []byte("22")}
+		o.Probes["language_switch_over_paginated_node_run"]++
+	} else if t.Chance(1, 60) {
 		// one symbol in two roles, visited in both orders
 		a = twoRolesApp(t)
 		scripted = [][]byte{[]byte("1"), []byte("0"), []byte("2"), []byte("0"), []byte("1"), []byte("11"), []byte("0"), []byte("2")}
